@@ -51,7 +51,8 @@ def rand_tree(rng, depth, tags=None):
         opts = {k: rng.randint(2, 6) for k in ("memory", "zone") if rng.random() < 0.4}
         exp = {k: rng.randint(7, 9) for k in ("memory", "zone", "vcpus") if rng.random() < 0.35}
         tags[0] += 1
-        kids.append({"opts": opts, "exp": exp, "tag": tags[0], "kids": rand_tree(rng, depth - 1, tags)})
+        kids.append({"opts": opts, "exp": exp, "tag": tags[0], "d": 1 if rng.random() < 0.3 else 0,
+                     "kids": rand_tree(rng, depth - 1, tags)})
     return kids
 
 
